@@ -166,7 +166,7 @@ def printed(out, tagname):
     return res
 
 
-def trace_check(ctx, module, trace_path, timeout=1800, tag=None, env=None):
+def trace_check(ctx, module, trace_path, timeout=1800, tag=None, env=None, cfg=None):
     """Step (4). Returns list of (line_no, [fields]) for every unexplained event."""
     n = sum(1 for _ in open(trace_path))
     if n == 0:
@@ -174,7 +174,7 @@ def trace_check(ctx, module, trace_path, timeout=1800, tag=None, env=None):
     e = {"TRACE": trace_path}
     if env:
         e.update(env)
-    out = tlc(ctx, module, workers=1, env=e, timeout=timeout, tag=tag or (module + "_" + os.path.basename(trace_path)))
+    out = tlc(ctx, module, cfg, workers=1, env=e, timeout=timeout, tag=tag or (module + "_" + os.path.basename(trace_path)))
     tlc_must_be_clean(out, module)
     if printed(out, "TRACE-INCOMPLETE") or "Model checking completed" not in out:
         raise ToolError("trace %s not consumed completely by %s:\n%s" % (trace_path, module, out[-2000:]))
